@@ -732,6 +732,9 @@ class SimNetwork:
         if kind == "refused":
             raise ConnectionRefusedError(errno.ECONNREFUSED, "Connection refused")
         if kind == "unreachable":
+            # no route to the network (ENETUNREACH, the default) or to the host (EHOSTUNREACH): outcome[2] selects
+            if len(outcome) > 2 and outcome[2] == errno.EHOSTUNREACH:
+                raise OSError(errno.EHOSTUNREACH, "No route to host")
             raise OSError(errno.ENETUNREACH, "Network is unreachable")
         if kind == "timeout":
             if s is not None and sock._timeout:
